@@ -28,7 +28,7 @@ ASSUMPTIONS = [
 ]
 TIMEOUT = {"quick": 400, "thorough": 2400}
 REQUIRED = {"post:marginal_likelihood": 100, "post:loo_likelihood": 100, "post:loo_predictions": 100,
-            "loo_refits": 500, "selections": 16, "gradient_components_checked": 300}
+            "loo_refits": 500, "selections": 16, "gradient_components_checked": 300, "integer_theta_cases": 20, "large_n_cases": 16}
 
 
 def jobs(tier, seed):
@@ -165,7 +165,11 @@ def run_job(job, rec):
             th2 = theta.copy()
             guarded(gp.marginal_likelihood, th2)
             guarded(gp.loo_likelihood, th2)
-            th2[tm.size] += 0.3          # log-amplitude (or first kernel parameter) changed in the same array object
+            th2[tm.size] -= 0.2          # first in-place update (forces any cache to rebuild on this array)
+            guarded(gp.marginal_likelihood, th2)
+            guarded(gp.loo_likelihood, th2)
+            guarded(gp.marginal_likelihood_gradient, th2)
+            th2[tm.size] += 0.5          # second in-place update of the same array object: judged
             th2[0] += 0.1 * p["y_scale"]
             K2 = R.data_cov(p["spec"], x, th2[tm.size:]) + S + np.diag(jit)
             if np.linalg.cond(K2) < 1e9:
@@ -178,6 +182,23 @@ def run_job(job, rec):
                 ok2 = (not isinstance(v2, Raised)) and (not isinstance(vg2, Raised)) and abs(float(v2) - ref2) <= (fac + 1e-9) * sc2 and abs(float(vg2[0]) - ref2) <= (fac + 1e-9) * sc2
                 rec.check(ok2, "stale-after-in-place-update",
                           lambda: f"{desc}: marginal likelihood after an in-place change of the theta array is {v2!r} / {vg2[0] if not isinstance(vg2, Raised) else vg2!r}, the MVN log-density at the new values is {ref2!r}", rec.context)
+
+        # ---- dtype of the hyper-parameter vector: an integer array / a list of ints is a legitimate point
+        if c % 3 == 0 and not cp_positions(p["spec"], n, d, x) and not R.has_hn(p["spec"]):
+            ti = np.round(theta).astype(int)
+            tf = ti.astype(float)
+            if np.linalg.cond(R.data_cov(p["spec"], x, tf[tm.size:]) + S) < 1e9:
+                rec.count("integer_theta_cases")
+                for fn in (gp.marginal_likelihood_gradient, gp.loo_likelihood_gradient):
+                    ra, rb, rc = guarded(fn, ti), guarded(fn, tf), guarded(fn, [int(v) for v in ti])
+                    okd = not any(isinstance(v, Raised) for v in (ra, rb, rc)) and np.allclose(ra[1], rb[1], rtol=1e-12, atol=0) and np.allclose(rc[1], rb[1], rtol=1e-12, atol=0) \
+                        and float(ra[0]) == float(rb[0])
+                    rec.check(okd, "depends-on-dtype-of-theta",
+                              lambda: f"{fn.__name__}: integer-typed hyper-parameters {ti.tolist()} give {ra!r}, the same values as floats give {rb!r}", rec.context)
+                for fn in (gp.marginal_likelihood, gp.loo_likelihood):
+                    ra, rb = guarded(fn, ti), guarded(fn, tf)
+                    rec.check(not isinstance(ra, Raised) and not isinstance(rb, Raised) and float(ra) == float(rb), "depends-on-dtype-of-theta",
+                              lambda: f"{fn.__name__}: integer-typed hyper-parameters give {ra!r}, floats give {rb!r}", rec.context)
 
         # ---- leave-one-out predictions (at the hyper-parameters the model holds)
         r2 = guarded(gp.set_hyperparameters, theta)
@@ -193,6 +214,46 @@ def run_job(job, rec):
                       lambda: f"{desc}: LOO predicted means differ from explicit refits by {np.abs(mu_p - mu_l).max():.3e} (tol {tol_mu:.2e})", rec.context)
             rec.check(bool(np.all(np.abs(sg_p**2 - var_l) <= fac * np.diag(Kfull).max() * 10)), "loo-prediction-variance",
                       lambda: f"{desc}: LOO predictive variances differ from explicit refits by {np.abs(sg_p**2 - var_l).max():.3e}", rec.context)
+
+    # ------------------------------------------------ larger data sets and large magnitudes (value only)
+    for c in range(2 if job["n_cases"] < 100 else 6):
+        n = int(rng.choice([150, 260, 400]))
+        d = int(rng.choice([1, 2]))
+        x = G.random_points(rng, n, d)
+        ysc = 10.0 ** rng.uniform(-3, 5)
+        span = np.where(np.ptp(x, axis=0) > 0, np.ptp(x, axis=0), 1.0)
+        y = ysc * (np.sin(3 * (x - x.mean(0)) @ (rng.normal(size=d) / span)) + 0.1 * rng.normal(size=n))
+        err = ysc * 10.0 ** rng.uniform(-2.0, -1.0, size=n)
+        spec = (str(rng.choice(["SE", "RQ"])),)
+        tc = G.random_theta(spec, rng, x, ysc)
+        tmn = np.array([rng.normal() * ysc])
+        lctx = {"large_n": n, "d": d, "y_scale": ysc, "spec": spec[0]}
+        rec.context = lctx
+        Kf = R.data_cov(spec, x, tc) + np.diag(err**2) + np.eye(n) * np.exp(2 * tc[0]) * 1e-12
+        cond = np.linalg.cond(Kf)
+        if cond > 1e9:
+            rec.count("skipped_ill_conditioned")
+            continue
+        gp = guarded(GpRegressor, x, y, y_err=err, hyperpars=np.concatenate([tmn, tc]), kernel=G.build_repo_kernel(spec))
+        if isinstance(gp, Raised):
+            rec.violation("raised", f"GpRegressor construction raised {gp!r}", lctx)
+            continue
+        th = np.concatenate([tmn * 1.1, tc + 0.1])
+        Kf2 = R.data_cov(spec, x, th[1:]) + np.diag(err**2) + np.eye(n) * np.exp(2 * th[1]) * 1e-12
+        c2 = np.linalg.cond(Kf2)
+        if c2 > 1e9:
+            rec.count("skipped_ill_conditioned")
+            continue
+        ref = R.mvn_logpdf_no_const(y, np.full(n, th[0]), Kf2)
+        r0 = y - th[0]
+        sc = abs(r0 @ np.linalg.solve(Kf2, r0)) + abs(np.linalg.slogdet(Kf2)[1]) + n
+        v, vg = guarded(gp.marginal_likelihood, th), guarded(gp.marginal_likelihood_gradient, th)
+        rec.count("large_n_cases")
+        rec.case(digest("large", x, y, th), nontrivial=True)
+        okl = not isinstance(v, Raised) and not isinstance(vg, Raised) and np.isfinite(float(v)) and abs(float(v) - ref) <= 500 * np.finfo(float).eps * c2 * sc \
+            and abs(float(vg[0]) - ref) <= 500 * np.finfo(float).eps * c2 * sc
+        rec.check(okl, "marginal-likelihood-value",
+                  lambda: f"n={n}, data scale {ysc:.3g}: marginal likelihood {v!r} (gradient variant {vg[0] if not isinstance(vg, Raised) else vg!r}) != MVN log-density {ref!r}", lctx)
 
     # ------------------------------------------------ automatic selection
     kernels = {"SE": SquaredExponential, "RQ": RationalQuadratic, "SE+WN": lambda: SquaredExponential() + WhiteNoise()}
